@@ -363,3 +363,16 @@ CHECKS["C02"]["harnesses"].append(
     {"probe": "core", "harness": "Harness_C02_variables", "setup": "Setup_C02_variables", "reach": ["c02.vars.coerced", "c02.vars.rejected"], "workers": 6, "sched": "first",
      "configs_quick": ["single"], "configs_thorough": ["single", "follow", "funcsyn", "omitptr"], "quick": {"sample_models": 40},
      "what": "requests with variables through executor.CreateOperationContext (gqlparser's variable coercion) and the generated binders: 20 cases (variable defaults with no / empty / partial variables, explicit null, json.Number and string forms, single value to list, input objects and their field defaults, missing required variables, uncoercible values): the resolver receives the coerced values or is never called"})
+
+CHECKS["C03"]["harnesses"].append(
+    {"pkg": "graphql/executor", "harness": "Harness_C03_rules", "setup": "Setup_C03_rules", "reach": ["c03.rules"], "workers": 8, "quick": {"sample_models": 30, "sample_every": 7},
+     "what": "one document per validation rule of the specification (29 documents, each invalid only by that rule) x suggestions on/off x query cache x a suggestions-disabled executor having served a request before in the same process: rejected, nothing runs, nothing cached"})
+
+CHECKS["C05"]["harnesses"].append(
+    dict(_WS, harness="Harness_C05_streams", reach=["c05.streams"], race=True, sched_confirm=True,
+         quick={"params": {"ticks": 1}, "sample_models": 10, "sample_every": 11}, thorough={"params": {"ticks": 2}, "workers": 14, "sample_models": 16, "sample_every": 211},
+         what="SSE (keep-alive on) and multipart/mixed (aggregator ticker) serving 1..2 payloads with the request context cancelled while any payload is produced, timers ticking at any scheduling point: Do returns and no goroutine of the transport is left (leak + deadlock detection), race check"))
+
+CHECKS["C04"]["harnesses"].append(
+    dict(_WS, harness="Harness_C11_subscribe", reach=["c11.sub.ran", "c11.sub.rejected"], quick={"sample_models": 12, "sample_every": 9},
+         what="websocket subscribe goroutine: user code panicking while the operation is dispatched (operation interceptor / subscription directive) or while a result is produced: error frame for the id, recover hook, no panic escapes the goroutine (process keeps serving)"))
